@@ -92,42 +92,49 @@ def coq_gate():
     return bad
 
 
-def coq_build(prop_file, timeout=1500):
-    """full .vo build of the cone of Props/<prop_file>.v, then re-run coqc on the
-    property file itself to capture Print Assumptions.  Returns dict."""
-    res = {"ok": False, "log": "", "theorems": [], "axioms": {}, "bad_axioms": []}
+def coq_build(prop_file, timeout=1500, extra=()):
+    """full .vo build of the cone of Props/<prop_file>.v (plus further statement
+    files `extra`, paths relative to coq/ without .v), then re-run coqc on each
+    statement file to capture Print Assumptions.  Returns dict."""
+    res = {"ok": False, "log": "", "theorems": [], "axioms": {}, "bad_axioms": [], "undeclared": []}
+    files = ["Props/" + prop_file] + list(extra)
+    outs = {}
     with Lock("coq"):
         coq_makefile()
-        target = "Props/%s.vo" % prop_file
-        rc, o, e = sh("timeout %d make -k -j16 %s" % (timeout, target), cwd=COQ, timeout=timeout + 30)
+        targets = " ".join(f + ".vo" for f in files)
+        rc, o, e = sh("timeout %d make -k -j16 %s" % (timeout, targets), cwd=COQ, timeout=timeout + 30)
         res["log"] = (o + e)[-6000:]
         if rc != 0:
             m = re.findall(r'File "([^"]+)", line (\d+)[^\n]*\n(?:[^\n]*\n)?Error:([^\n]*(?:\n[^\n]+)?)', o + e)
             res["failed_at"] = ["%s:%s %s" % (a, b, c.strip()) for a, b, c in m][:5]
             return res
-        rc, o, e = sh("timeout 600 coqc -Q . NngV Props/%s.v" % prop_file, cwd=COQ, timeout=630)
-        if rc != 0:
-            res["log"] = (o + e)[-6000:]
+        for f in files:
+            rc, o, e = sh("timeout 900 coqc -Q . NngV %s.v" % f, cwd=COQ, timeout=930)
+            if rc != 0:
+                res["log"] = (o + e)[-6000:]
+                return res
+            outs[f] = o
+    for f in files:
+        o = outs[f]
+        src = open(os.path.join(COQ, f + ".v")).read()
+        names = re.findall(r"^\s*Print Assumptions (\w+)\.", src, re.M)
+        blocks = re.split(r"(?=^Closed under the global context|^Axioms:)", o, flags=re.M)
+        blocks = [b for b in blocks if b.startswith("Closed") or b.startswith("Axioms:")]
+        if len(blocks) != len(names):
+            res["log"] = "%s: Print Assumptions output count mismatch: %d vs %d\n%s" % (f, len(blocks), len(names), o[-3000:])
             return res
-    src = open(os.path.join(COQ, "Props", prop_file + ".v")).read()
-    names = re.findall(r"^\s*Print Assumptions (\w+)\.", src, re.M)
-    blocks = re.split(r"(?=^Closed under the global context|^Axioms:)", o, flags=re.M)
-    blocks = [b for b in blocks if b.startswith("Closed") or b.startswith("Axioms:")]
-    if len(blocks) != len(names):
-        res["log"] = "Print Assumptions output count mismatch: %d vs %d\n%s" % (len(blocks), len(names), o[-3000:])
-        return res
-    for n, b in zip(names, blocks):
-        if b.startswith("Closed"):
-            res["axioms"][n] = []
-        else:
-            ax = re.findall(r"^([A-Za-z_][\w.']*)\s*:", b, re.M)
-            res["axioms"][n] = ax
-            for a in ax:
-                if a not in ALLOWED_AXIOMS and a.split(".")[-1] not in ALLOWED_AXIOMS:
-                    res["bad_axioms"].append("%s uses %s" % (n, a))
-    res["theorems"] = names
-    thm_decl = re.findall(r"^\s*(?:Theorem|Corollary)\s+(\w+)", src, re.M)
-    res["undeclared"] = [t for t in thm_decl if t not in names]
+        for n, b in zip(names, blocks):
+            if b.startswith("Closed"):
+                res["axioms"][n] = []
+            else:
+                ax = re.findall(r"^([A-Za-z_][\w.']*)\s*:", b, re.M)
+                res["axioms"][n] = ax
+                for a in ax:
+                    if a not in ALLOWED_AXIOMS and a.split(".")[-1] not in ALLOWED_AXIOMS:
+                        res["bad_axioms"].append("%s uses %s" % (n, a))
+        res["theorems"] += names
+        thm_decl = re.findall(r"^\s*(?:Theorem|Corollary)\s+(\w+)", src, re.M)
+        res["undeclared"] += [t for t in thm_decl if t not in names]
     res["ok"] = not res["bad_axioms"] and not res["undeclared"]
     return res
 
